@@ -198,6 +198,15 @@ class _ArraySizeInferInstance(DefaultVisitor):
         self._cond_depth = 0
         self._callee_ret = {}
         self._ctx_use_cache = None
+        # Set once a conditionally-executed `return` has been walked: what
+        # follows it no longer runs on every execution.
+        self._early_return = False
+
+    @property
+    def _unconditional(self) -> bool:
+        """Does the statement being walked run on *every* execution -- not
+        inside a branch or loop body, and not after an early `return`?"""
+        return self._cond_depth == 0 and not self._early_return
 
     @contextmanager
     def _branch(self):
@@ -411,7 +420,13 @@ class _ArraySizeInferInstance(DefaultVisitor):
                 return None
 
     def _visit_naryop(self, e: NaryOp, ctx: None):
-        tys = [self._visit_expr(arg, ctx) for arg in e.args]
+        if isinstance(e, And | Or) and e.args:
+            # short-circuit: only the first operand is evaluated every time
+            tys = [self._visit_expr(e.args[0], ctx)]
+            with self._branch():
+                tys += [self._visit_expr(arg, ctx) for arg in e.args[1:]]
+        else:
+            tys = [self._visit_expr(arg, ctx) for arg in e.args]
         match e:
             case Zip():
                 if len(e.args) == 0:
@@ -443,10 +458,10 @@ class _ArraySizeInferInstance(DefaultVisitor):
                 elif concretes:
                     # all inputs must equal the concrete length(s)
                     size = next(iter(concretes)) if len(concretes) == 1 else None
-                    if size is not None and self._cond_depth == 0:
+                    if size is not None and self._unconditional:
                         for s in symbols:
                             self._pin_size(s, size)
-                elif self._cond_depth == 0:
+                elif self._unconditional:
                     # all symbolic: strict zip proves them equal
                     rep = symbols[0]
                     for s in symbols[1:]:
@@ -483,6 +498,16 @@ class _ArraySizeInferInstance(DefaultVisitor):
             case _:
                 return None
 
+    def _visit_compare(self, e: Compare, ctx: None):
+        # a chain stops at the first link that fails, so operands past the
+        # second are evaluated conditionally
+        for arg in e.args[:2]:
+            self._visit_expr(arg, ctx)
+        with self._branch():
+            for arg in e.args[2:]:
+                self._visit_expr(arg, ctx)
+        return None
+
     def _visit_list_expr(self, e: ListExpr, ctx: None):
         elt_sizes = [self._visit_expr(elt, ctx) for elt in e.elts]
         if elt_sizes:
@@ -499,8 +524,14 @@ class _ArraySizeInferInstance(DefaultVisitor):
 
     def _visit_list_comp(self, e: ListComp, ctx: None):
         iter_tys: list[ListSize] = []
-        for target, iterable in zip(e.targets, e.iterables, strict=True):
-            ty = self._visit_expr(iterable, ctx)
+        for i, (target, iterable) in enumerate(zip(e.targets, e.iterables, strict=True)):
+            if i == 0:
+                ty = self._visit_expr(iterable, ctx)
+            else:
+                # evaluated once per element of the generators before it --
+                # never, if one of them is empty
+                with self._branch():
+                    ty = self._visit_expr(iterable, ctx)
             assert isinstance(ty, ListSize)
             self._visit_binding(e, target, ty.elt)
             iter_tys.append(ty)
@@ -821,6 +852,8 @@ class _ArraySizeInferInstance(DefaultVisitor):
 
     def _visit_return(self, stmt: ReturnStmt, ctx: None):
         ret_size = self._visit_expr(stmt.expr, ctx)
+        if self._cond_depth > 0:
+            self._early_return = True
         if not isinstance(ret_size, ListSize):
             return
         # Across multiple returns, unify: concrete iff all paths agree.
@@ -833,7 +866,7 @@ class _ArraySizeInferInstance(DefaultVisitor):
         self._visit_expr(stmt.test, ctx)
         # Only an *unconditional* assert holds on every execution, so only
         # then may it constrain sizes globally (cf. strict ``zip``).
-        if self._cond_depth == 0:
+        if self._unconditional:
             self._seed_from_assert(stmt.test)
 
     def _seed_from_assert(self, test: Expr):
